@@ -22,6 +22,11 @@ thread_local! {
     static SCHED: std::cell::RefCell<crate::c09::SchedTracker> = std::cell::RefCell::new(crate::c09::SchedTracker::default());
 }
 
+thread_local! {
+    /// sequence numbers of the snapshots the client holds: (now, at the previous quiescent point)
+    static LIVE_SNAPS: std::cell::RefCell<(std::collections::BTreeSet<u64>, std::collections::BTreeSet<u64>)> = std::cell::RefCell::new(Default::default());
+}
+
 pub fn sched_reset() {
     SCHED.with(|t| { let mut t = t.borrow_mut(); t.reset(); t.checked = 0; });
 }
@@ -737,6 +742,8 @@ pub fn run_history(h: &History, checks: &Checks, fs: &SimFs) -> RunOut {
     let mut stats = Stats::default();
     let mut oracle: Oracle = BTreeMap::new();
     let mut snaps: BTreeMap<u32, (Snapshot, Oracle)> = BTreeMap::new();
+    let mut snap_seqs: BTreeMap<u32, u64> = BTreeMap::new();
+    LIVE_SNAPS.with(|l| *l.borrow_mut() = Default::default());
     let mut iters: BTreeMap<u32, (Box<dyn RainDbIterator<Key = Vec<u8>, Error = raindb::RainDBError>>, Oracle)> = BTreeMap::new();
     let mut cfg = h.cfg.clone();
     let mut completed = 0usize;
@@ -763,6 +770,20 @@ pub fn run_history(h: &History, checks: &Checks, fs: &SimFs) -> RunOut {
         let events = raindb::verif::events_take(DB_PATH);
         if let Some(dr) = drv.as_mut() {
             validate_events(dr, &events, obs, stats, at, chain);
+            // a snapshot the client held at the previous quiescent point and still holds now was alive
+            // during every compaction in between: none of them may have used a larger "smallest
+            // snapshot" (the model's view-preservation theorem only protects views at or above it)
+            LIVE_SNAPS.with(|l| {
+                let mut l = l.borrow_mut();
+                for ev in &events {
+                    if let Event::Compaction { smallest_snapshot, level, .. } = ev {
+                        if let Some(s) = l.0.intersection(&l.1).find(|s| **s < *smallest_snapshot) {
+                            obs.push(Obs { sig: "c03:compaction-ignores-a-live-snapshot".into(), what: format!("a compaction of level {level} computed its smallest snapshot as {smallest_snapshot} although the client held a snapshot at sequence number {s} before it started and still holds it: versions only that snapshot can see may be dropped"), at });
+                        }
+                    }
+                }
+                l.1 = l.0.clone();
+            });
             // the scheduling steps of the background worker against the protocol model's invariant
             SCHED.with(|t| {
                 let mut t = t.borrow_mut();
@@ -970,13 +991,27 @@ pub fn run_history(h: &History, checks: &Checks, fs: &SimFs) -> RunOut {
             }
             Op::Snap(id) => {
                 if !snaps.contains_key(id) {
+                    // single client: the snapshot is taken at the last published sequence number
+                    let seq = d.verif_state().last_sequence;
                     let s = d.get_snapshot();
                     snaps.insert(*id, (s, oracle.clone()));
+                    snap_seqs.insert(*id, seq);
+                    LIVE_SNAPS.with(|l| {
+                        l.borrow_mut().0.insert(seq);
+                    });
                 }
             }
             Op::Release(id) => {
                 if let Some((s, _)) = snaps.remove(id) {
                     d.release_snapshot(s);
+                    if let Some(seq) = snap_seqs.remove(id) {
+                        // another held snapshot may share the sequence number
+                        if !snap_seqs.values().any(|v| *v == seq) {
+                            LIVE_SNAPS.with(|l| {
+                                l.borrow_mut().0.remove(&seq);
+                            });
+                        }
+                    }
                 }
             }
             Op::Compact(a, b) => {
@@ -1106,6 +1141,8 @@ pub fn run_history(h: &History, checks: &Checks, fs: &SimFs) -> RunOut {
             Op::Reopen(newcfg) => {
                 // iterators and snapshots do not survive a close
                 iters.clear();
+                snap_seqs.clear();
+                LIVE_SNAPS.with(|l| *l.borrow_mut() = Default::default());
                 for (_, (s, _)) in std::mem::take(&mut snaps) {
                     d.release_snapshot(s);
                 }
@@ -1172,6 +1209,8 @@ pub fn run_history(h: &History, checks: &Checks, fs: &SimFs) -> RunOut {
                 for (_, (s, _)) in std::mem::take(&mut snaps) {
                     d.release_snapshot(s);
                 }
+                snap_seqs.clear();
+                LIVE_SNAPS.with(|l| *l.borrow_mut() = Default::default());
                 if checks.files {
                     // the reads of the dump may have triggered seek compactions: take a fresh
                     // state. Releasing snapshots does not by itself trigger deletion, so only
